@@ -303,7 +303,7 @@ class VariableElimination(Inference):
         # Step 2: If virtual_evidence is provided, modify the network.
         if isinstance(self.model, BayesianNetwork) and (virtual_evidence is not None):
             bn = self._virtual_evidence(virtual_evidence)
-            virt_evidence = {"__" + cpd.variables[0]: 0 for cpd in virtual_evidence}
+            virt_evidence = {"__" + str(cpd.variables[0]): 0 for cpd in virtual_evidence}
             return type(self)(bn).query(
                 variables=variables,
                 evidence={**evidence, **virt_evidence},
@@ -553,7 +553,7 @@ class VariableElimination(Inference):
 
         if isinstance(self.model, BayesianNetwork) and (virtual_evidence is not None):
             bn = self._virtual_evidence(virtual_evidence)
-            virt_evidence = {"__" + cpd.variables[0]: 0 for cpd in virtual_evidence}
+            virt_evidence = {"__" + str(cpd.variables[0]): 0 for cpd in virtual_evidence}
             return type(self)(bn).map_query(
                 variables=variables,
                 evidence={**evidence, **virt_evidence},
@@ -1106,7 +1106,7 @@ class BeliefPropagation(Inference):
         # Step 2: If virtual_evidence is provided, modify model and evidence.
         if isinstance(self.model, BayesianNetwork) and (virtual_evidence is not None):
             bn = self._virtual_evidence(virtual_evidence)
-            virt_evidence = {"__" + cpd.variables[0]: 0 for cpd in virtual_evidence}
+            virt_evidence = {"__" + str(cpd.variables[0]): 0 for cpd in virtual_evidence}
             return type(self)(bn).query(
                 variables=variables,
                 evidence={**evidence, **virt_evidence},
@@ -1205,7 +1205,7 @@ class BeliefPropagation(Inference):
 
         if isinstance(self.model, BayesianNetwork) and (virtual_evidence is not None):
             bn = self._virtual_evidence(virtual_evidence)
-            virt_evidence = {"__" + cpd.variables[0]: 0 for cpd in virtual_evidence}
+            virt_evidence = {"__" + str(cpd.variables[0]): 0 for cpd in virtual_evidence}
             return type(self)(bn).map_query(
                 variables=variables,
                 evidence={**evidence, **virt_evidence},
